@@ -237,6 +237,17 @@ func genC11(r *rand.Rand, n int, emit func(string)) {
 					op["path"] = pp()
 				}
 			}
+			// members the operation kind does not use (the validator looks at whatever is there)
+			switch r.Intn(8) {
+			case 0:
+				if _, ok := op["value"]; !ok {
+					op["value"] = pick(r, []interface{}{nil, 1, "v", M{"id": "evil"}})
+				}
+			case 1:
+				if _, ok := op["from"]; !ok {
+					op["from"] = pp()
+				}
+			}
 			ops = append(ops, op)
 		}
 		// after a copy out of a protected member, edit the copy (used to alias the original)
